@@ -19,6 +19,8 @@ RULE = ("cases: random dataclass forests (depth <= 4, frozen / Optional / Union 
         "form. Non-trivial = at least one edit at depth >= 2 or >= 2 edits (replace), a selection that changes a member "
         "(subgroups), a dotted key (unit ops); distinct by canonical JSON of the case.")
 ASSUMPTIONS = [
+    "init=False fields: the result is what dataclasses.replace builds (they are re-created from the class default on every "
+    "rebuilt level); theorems c18_empty / c18_frame assume AtDefault / initPath accordingly, the oracle expects the reset",
     "dataclasses.replace / dataclass __init__ / __eq__ (stdlib) behave as documented; classes have no __post_init__",
     "str.split('.') is modelled on the generated ASCII keys",
     "change values and instances are JSON-representable trees without sharing (aliasing between change dicts is not modelled)",
@@ -154,7 +156,8 @@ def gen_forest(rng, depth, with_sg=False, reserved=False):
                                    "default": default_inst(classes, first) if fac else NONE})
                 else:
                     fac = rng.random() < 0.85
-                    fields.append({"name": fname, "kind": "dc", "cls": [first], "init": True, "factory": fac,
+                    fields.append({"name": fname, "kind": "dc", "cls": [first], "factory": fac,
+                                   "init": not (fac and not with_sg and rng.random() < 0.1),
                                    "default": default_inst(classes, first) if fac else NONE})
             else:
                 pool = [n for n in LEAF_NAMES if n not in used]
@@ -163,7 +166,7 @@ def gen_forest(rng, depth, with_sg=False, reserved=False):
                 fname = rng.choice(pool or ["f%d" % i])
                 used.add(fname)
                 kind = rng.choice(["int", "int", "str", "bool", "optint", "list", "dict"])
-                init = not (kind in ("int", "str") and rng.random() < 0.12)
+                init = not (kind in ("int", "str", "list") and rng.random() < 0.12)
                 fields.append({"name": fname, "kind": kind, "cls": [], "init": init, "factory": kind in ("list", "dict"),
                                "default": gen_leaf_value(rng, kind)})
         c = {"name": name, "frozen": rng.random() < 0.3, "fields": fields}
@@ -177,17 +180,36 @@ def gen_forest(rng, depth, with_sg=False, reserved=False):
     return classes, classes[-1]["name"]
 
 
-def gen_inst(rng, classes, name, p_default=0.25):
+def off_default(rng, classes, f):
+    """a value of an init=False field that is NOT the class default (set after construction)"""
+    d = f["default"]
+    if f["kind"] == "int":
+        return I(int(d["v"]) + rng.choice([1, 5]))
+    if f["kind"] == "str":
+        return S(d["v"] + "_set")
+    if f["kind"] == "list":
+        return {"t": "list", "v": d["v"] + [I(9)]}
+    if f["kind"] == "dc":
+        for _ in range(4):
+            v = gen_inst(rng, classes, f["cls"][0], 0.0)
+            if v != d:
+                return v
+    return d
+
+
+def gen_inst(rng, classes, name, p_default=0.25, p_mut=0.0):
     c = cls_by_name(classes)[name]
     vals = []
     for f in c["fields"]:
-        if not f["init"] or rng.random() < p_default:
+        if not f["init"]:
+            vals.append([f["name"], off_default(rng, classes, f) if rng.random() < p_mut else f["default"]])
+        elif rng.random() < p_default:
             vals.append([f["name"], f["default"]])
         elif f["kind"] in ("dc", "union", "sg", "opt"):
             if f["kind"] == "opt" and rng.random() < 0.4:
                 vals.append([f["name"], NONE])
             else:
-                vals.append([f["name"], gen_inst(rng, classes, rng.choice(f["cls"]), p_default)])
+                vals.append([f["name"], gen_inst(rng, classes, rng.choice(f["cls"]), p_default, p_mut)])
         else:
             vals.append([f["name"], gen_leaf_value(rng, f["kind"])])
     return {"t": "inst", "cls": name, "v": vals}
@@ -231,26 +253,20 @@ def gen_edit(rng, classes, obj, kind):
             return None
         f = rng.choice(cands)
         curv = tree_get(cur, [f["name"]])
-        r = rng.random()
-        if f["kind"] in ("dc", "union", "sg", "opt"):
-            if r < 0.5:
-                v = gen_inst(rng, classes, rng.choice(f["cls"]))
-            elif r < 0.75:
-                v = NONE
-            else:
-                v = I(5)
-        elif r < 0.8:
-            v = gen_leaf_value(rng, f["kind"])
-        else:
-            v = gen_leaf_value(rng, rng.choice(["int", "str", "list", "dict"]))
-        if v["t"] == "dict" and curv.get("t") == "inst":
-            v = NONE
+        for _try in range(6):
+            v = _new_value(rng, classes, f, curv)
+            if v != curv or rng.random() < 0.05:
+                break
         return {"path": path + [f["name"]], "v": v, "kind": "ok"}
     if kind == "noninit":
         cands = [f for f in c["fields"] if not f["init"]]
         if not cands:
             return None
-        return {"path": path + [rng.choice(cands)["name"]], "v": I(99), "kind": "noninit"}
+        f = rng.choice(cands)
+        sub = tree_get(cur, [f["name"]])
+        if sub.get("t") == "inst" and rng.random() < 0.6:      # init=False member at an intermediate position
+            return {"path": path + [f["name"], rng.choice(sub["v"])[0]], "v": I(99), "kind": "noninit"}
+        return {"path": path + [f["name"]], "v": I(99), "kind": "noninit"}
     if kind == "unknown":
         return {"path": path + [rng.choice(["qq", "zz_unknown", ""])], "v": I(99), "kind": "unknown"}
     if kind == "through":
@@ -259,6 +275,24 @@ def gen_edit(rng, classes, obj, kind):
             return None
         return {"path": path + [rng.choice(cands), rng.choice(["v", "q", "a"])], "v": I(3), "kind": "through"}
     raise ValueError(kind)
+
+
+def _new_value(rng, classes, f, curv):
+    r = rng.random()
+    if f["kind"] in ("dc", "union", "sg", "opt"):
+        if r < 0.5:
+            v = gen_inst(rng, classes, rng.choice(f["cls"]))
+        elif r < 0.75:
+            v = NONE
+        else:
+            v = I(5)
+    elif r < 0.8:
+        v = gen_leaf_value(rng, f["kind"])
+    else:
+        v = gen_leaf_value(rng, rng.choice(["int", "str", "list", "dict"]))
+    if v["t"] == "dict" and curv.get("t") == "inst":
+        v = NONE
+    return v
 
 
 def inst_paths(classes, v, pre=()):
@@ -311,7 +345,7 @@ def gen_replace_case(rng, tier, bad=None, reserved=False, touch=False):
 def _gen_replace_case(rng, tier, bad=None, reserved=False, touch=False):
     depth = rng.choice([1, 2, 2, 3, 3, 4])
     classes, root = gen_forest(rng, depth, reserved=reserved)
-    obj = gen_inst(rng, classes, root, p_default=0.2)
+    obj = gen_inst(rng, classes, root, p_default=0.2, p_mut=rng.choice([0.0, 0.0, 0.5]))
     n = rng.choice([0, 0, 1, 2]) if touch else rng.choice([0, 1, 1, 2, 2, 3, 4])
     edits = []
     for _ in range(n):
@@ -455,7 +489,7 @@ def gen_sel_tree(rng, classes, cur, path, valid, depth, sels, top=False):
     n = rng.choice([0, 1, 1, 2, 3]) if top else rng.choice([1, 1, 2])
     for f in cand[:n]:
         curv = tree_get(cur, [f["name"]])
-        can_pass = f["kind"] == "dc" and curv is not None and curv.get("t") == "inst" and depth > 1
+        can_pass = f["kind"] in DCISH and curv is not None and curv.get("t") == "inst" and depth > 1
         if can_pass and rng.random() < 0.3:
             before = len(sels)
             gen_sel_tree(rng, classes, curv, path + [f["name"]], valid, depth - 1, sels)
@@ -482,9 +516,10 @@ def render_sel(rng, sels, form=None):
         own = [v for p_, v in sels if p_ == [h]]
         kids = [(p_[1:], v) for p_, v in sels if len(p_) >= 2 and p_[0] == h]
         if not kids:
-            items.append((h, own[0]))
+            # a lone selection may also be written in the nested form {"h": {"__key__": v}}
+            items.append((h, D([(KW, own[0])])) if (form is None and rng.random() < 0.3) else (h, own[0]))
             continue
-        f = form or rng.choice(["flat", "flat", "nested"])
+        f = form or rng.choice(["flat", "nested"])
         if f == "flat":
             if own:
                 items.append((h, own[0]))
@@ -510,6 +545,11 @@ def gen_subgroups_case(rng, tier):
     valid = rng.random() < 0.65
     sels = []         # intended selections: {"path", "v", "member"}
     gen_sel_tree(rng, classes, obj, [], valid, rng.choice([1, 2, 2, 3, 3]), sels, top=True)
+    if valid and rng.random() < 0.12:
+        # a key that names no field (at the top, or below a member that is selected / passed through)
+        hosts = [[]] + [s_["path"] for s_ in sels if (s_["member"] or {}).get("t") == "inst"]
+        hosts += [s_["path"][:-1] for s_ in sels if len(s_["path"]) >= 2]
+        sels.append({"path": rng.choice(hosts) + ["zz_unknown"], "v": S("b"), "member": None, "unknown": True})
     items = ditems(render_sel(rng, [(s_["path"], s_["v"]) for s_ in sels]))
     if not valid and rng.random() < 0.3:
         items.insert(rng.randrange(len(items) + 1), ("zz_unknown", S("a")))
@@ -650,6 +690,9 @@ def outcome(fn):
         return {"o": "raise", "exc": type(e).__name__, "msg": str(e)[:200]}
 
 
+TOUCH = object()
+
+
 def ref_apply(obj, edits):
     """dataclasses.replace applied level by level (the reference the property names)."""
     kwargs = {}
@@ -660,7 +703,8 @@ def ref_apply(obj, edits):
     for h in heads:
         sub = [(p[1:], v) for p, v in edits if p[0] == h]
         if any(len(p) == 0 for p, _ in sub):
-            kwargs[h] = sub[0][1]
+            # TOUCH = empty nested change set: the reference is dataclasses.replace(member) with no changes
+            kwargs[h] = dataclasses.replace(getattr(obj, h)) if sub[0][1] is TOUCH else sub[0][1]
         else:
             kwargs[h] = ref_apply(getattr(obj, h), sub)
     return dataclasses.replace(obj, **kwargs)
@@ -751,7 +795,7 @@ def impl(case):
                 if val is not None and aval is not None:
                     alts[name]["py_eq"] = bool(aval == val)
             obs["alts"] = alts
-            rr = outcome(lambda: ref_apply(obj, [(e["path"], build_value(e["v"], real)) for e in edits if e["kind"] == "ok"]))
+            rr = outcome(lambda: ref_apply(obj, [(e["path"], TOUCH if e["kind"] == "touch" else build_value(e["v"], real)) for e in edits]))
             obs["ref"] = (_slim({"o": "ok", "v": sp.cv(rr["value"]), "py_eq": bool(val is not None and rr["value"] == val)}, res.get("v"))
                           if rr["o"] == "ok" else {"o": "raise", "exc": rr["exc"]})
             after = sp.cv(obj)
@@ -763,12 +807,18 @@ def impl(case):
         from simple_parsing.replace import replace_subgroups
 
         sel = None if c["sel"] is None else build_value(c["sel"], real)
+        sel_before = None if sel is None else sp.cv(sel)
         r = outcome(lambda: replace_subgroups(obj, sel))
         if r["o"] == "ok":
             v = r["value"]
             out = {"o": "ok", "v": sp.cv(v), "same_type": type(v) is type(obj), "is_same": v is obj}
         else:
             out = {"o": "raise", "exc": r["exc"]}
+        if sel is not None:
+            out["arg_unchanged"] = sp.cv(sel) == sel_before
+            r2 = outcome(lambda: replace_subgroups(obj, sel))       # the SAME dict object applied again
+            out["reuse"] = {"o": "ok", "v": sp.cv(r2["value"])} if r2["o"] == "ok" else {"o": "raise", "exc": r2["exc"]}
+            _slim(out)
         obs = {"out": out, "before": before, "unchanged": bool(obj == keep)}
         after = sp.cv(obj)
         if after != before:
@@ -845,9 +895,18 @@ def model_unmodelled(mo):
 # the property itself, on real observations (independent of the model)
 
 
-def spec_apply(tree, path, v, classes):
-    """expected canonical tree after setting the leaf at `path` (through dataclass instances) to v"""
+def reset_noninit(tree, classes):
+    """a level rebuilt by dataclasses.replace: its init=False fields are re-created from the class default"""
+    fl = {f["name"]: f for f in cls_by_name(classes)[tree["cls"]]["fields"]}
+    return {"t": "inst", "cls": tree["cls"], "v": [[n, x if fl[n]["init"] else fl[n]["default"]] for n, x in tree["v"]]}
+
+
+def spec_apply(tree, path, v, classes, touch=False):
+    """expected canonical tree after setting the leaf at `path` (through dataclass instances) to v; with `touch` the
+    instance at `path` is only rebuilt (empty nested change set)"""
     if not path:
+        if touch:
+            return reset_noninit(tree, classes) if tree.get("t") == "inst" else tree
         return v
     assert tree["t"] == "inst"
     out = []
@@ -855,11 +914,11 @@ def spec_apply(tree, path, v, classes):
     for n, x in tree["v"]:
         if n == path[0]:
             hit = True
-            out.append([n, spec_apply(x, path[1:], v, classes)])
+            out.append([n, spec_apply(x, path[1:], v, classes, touch)])
         else:
             out.append([n, x])
     assert hit
-    return {"t": "inst", "cls": tree["cls"], "v": out}
+    return reset_noninit({"t": "inst", "cls": tree["cls"], "v": out}, classes)
 
 
 def edit_status(obj_tree, classes, e):
@@ -897,7 +956,8 @@ def oracle(case, obs):
                 fails.append({"clause": "new-object", "detail": "replace returned obj itself"})
         empty = (c["cd"] is None or not c["cd"]["v"]) and not c["kw"]["v"]
         if empty:
-            if out["o"] != "ok" or out["v"] != obs["before"] or not out["eq_obj"]:
+            exp0 = reset_noninit(c["obj"], classes)      # == obj unless an init=False field was set after construction
+            if out["o"] != "ok" or out["v"] != exp0 or (exp0 == c["obj"] and not out["eq_obj"]):
                 fails.append({"clause": "empty", "detail": f"empty change set gave {out}"})
             return fails
         if c["stream"] != "edits":
@@ -921,10 +981,9 @@ def oracle(case, obs):
         if out["o"] != "ok":
             fails.append({"clause": "outcome", "detail": f"valid change set raised {out.get('exc')}"})
             return fails
-        exp = c["obj"]
-        for e in edits:
-            if e["kind"] != "touch":       # an empty nested change set changes nothing below its path
-                exp = spec_apply(exp, e["path"], e["v"], classes)
+        exp = reset_noninit(c["obj"], classes)
+        for e in edits:                    # an empty nested change set only rebuilds the instance at its path
+            exp = spec_apply(exp, e["path"], e["v"], classes, touch=e["kind"] == "touch")
         if out["v"] != exp:
             bad_addr = [e["path"] for e in edits if tree_get(out["v"], e["path"]) != tree_get(exp, e["path"])]
             fails.append({"clause": "addressed" if bad_addr else "frame",
@@ -950,16 +1009,24 @@ def oracle(case, obs):
             if out["o"] != "ok" or out["v"] != obs["before"]:
                 fails.append({"clause": "sg-empty", "detail": f"empty selection gave {out}"})
             return fails
+        # the selection dict is an input too: it must not be consumed, and applying it again must do the same thing
+        if out.get("arg_unchanged") is False:
+            fails.append({"clause": "sg-arg-unchanged", "detail": "the selection dict was modified by replace_subgroups()"})
+        ru = out.get("reuse")
+        if ru is not None and (ru["o"] != out["o"] or (ru["o"] == "ok" and _val(ru, out["v"]) != out["v"])):
+            fails.append({"clause": "sg-reuse", "detail": f"re-using the same selection dict gives {canon(ru)[:200]} instead of the first result"})
         noninit = any(not f["init"] for cl in classes for f in cl["fields"])
-        if not c["valid"] or noninit or any(s["member"] is None for s in c["sels"]):
+        unknown = [s for s in c["sels"] if s.get("unknown")]
+        if not c["valid"] or noninit or any(s["member"] is None and not s.get("unknown") for s in c["sels"]):
             return fails
-        exp = c["obj"]
-        for s in sorted(c["sels"], key=lambda s: len(s["path"])):
-            if tree_get(exp, s["path"][:-1]) is None or tree_get(exp, s["path"][:-1]).get("t") != "inst":
-                return fails          # selection below a member that is not a dataclass here: not judged
-            if tree_get(exp, s["path"]) is None:
-                return fails
-            exp = spec_apply(exp, s["path"], s["member"], classes)
+        exp = expected_sel_tree(c)
+        if exp is None:
+            return fails              # selection below a member that is not a dataclass here: not judged
+        if unknown:
+            if out["o"] == "ok":
+                fails.append({"clause": "sg-unknown-ignored", "paths": [s["path"] for s in unknown],
+                              "detail": f"selection keys {[s['path'] for s in unknown]} name no field but replace_subgroups returned normally"})
+            return fails
         if out["o"] != "ok":
             fails.append({"clause": "sg-outcome", "exc": out.get("exc"), "detail": f"valid selection raised {out.get('exc')}"})
             return fails
@@ -973,6 +1040,29 @@ def oracle(case, obs):
                 fails.append({"clause": "sg-frame", "detail": f"members that no selection addresses differ at {other[:4]}",
                               "diff": other})
     return fails
+
+
+def expected_sel_tree(c):
+    """canonical tree the property demands for the (known-field) selections of a case; None = not judged"""
+    exp = c["obj"]
+    for s in sorted((s for s in c["sels"] if not s.get("unknown")), key=lambda s: len(s["path"])):
+        par = tree_get(exp, s["path"][:-1])
+        if par is None or par.get("t") != "inst" or tree_get(exp, s["path"]) is None:
+            return None
+        exp = spec_apply(exp, s["path"], s["member"], c["classes"])
+    return exp
+
+
+def through_prefixes(c):
+    """fields that are only passed through: a selection addresses something below them, none addresses them"""
+    known = [s for s in c["sels"] if not s.get("unknown")]
+    out = []
+    for s in known:
+        for i in range(1, len(s["path"])):
+            q = s["path"][:i]
+            if not any(t["path"] == q for t in known) and q not in out:
+                out.append(q)
+    return out
 
 
 def diff_paths(a, b, pre=()):
@@ -1004,8 +1094,46 @@ def _sig_d19(case, obs, fail):
     return True
 
 
+def _has_nested_key(v):
+    if v is None or v.get("t") != "dict":
+        return False
+    return any(x.get("t") == "dict" and (any(k == KW for k, _ in ditems(x)) or _has_nested_key(x)) for _, x in ditems(v))
+
+
+def _sig_sg_passthrough(case, obs, fail):
+    """a valid selection only passes THROUGH an Optional field (TypeError: the field is set to None, then
+    dataclasses.fields(None)) or a subgroups() field (AssertionError: value_of_selection None is not a str)
+    whose current value is a dataclass instance"""
+    if case["op"] != "replace.subgroups" or fail.get("clause") != "sg-outcome":
+        return False
+    c = case["case"]
+    exp = expected_sel_tree(c)
+    if exp is None:
+        return False
+    kinds = set()
+    for q in through_prefixes(c):
+        par = tree_get(exp, q[:-1])
+        kinds.add(field_of(c["classes"], par["cls"], q[-1])["kind"])
+    return (fail.get("exc") == "TypeError" and "opt" in kinds) or (fail.get("exc") == "AssertionError" and "sg" in kinds)
+
+
+def _sig_sg_consumed(case, obs, fail):
+    """the selection has a nested dict with a `__key__` entry: replace_subgroups pops it out of the caller's dict"""
+    return (case["op"] == "replace.subgroups" and fail.get("clause") in ("sg-arg-unchanged", "sg-reuse")
+            and _has_nested_key(case["case"]["sel"]))
+
+
+def _sig_sg_unknown(case, obs, fail):
+    """a selection key that names no field is dropped silently (the call returns normally)"""
+    return (case["op"] == "replace.subgroups" and fail.get("clause") == "sg-unknown-ignored"
+            and obs["out"]["o"] == "ok" and any(s.get("unknown") for s in case["case"]["sels"]))
+
+
 FINDINGS = {
     "C18-D19-dotted-through-noninst": _sig_d19,
+    "C18-subgroups-passthrough-opt-sg": _sig_sg_passthrough,
+    "C18-subgroups-consumes-selection": _sig_sg_consumed,
+    "C18-subgroups-unknown-ignored": _sig_sg_unknown,
 }
 
 
@@ -1024,6 +1152,13 @@ def nontrivial(case, obs):
     if op == "replace.unflatten_sel":
         return any("." in k for k, _ in ditems(c["sel"]))
     return True
+
+
+def reset_noninit_deep(v, classes):
+    if v.get("t") != "inst":
+        return v
+    r = reset_noninit(v, classes)
+    return {"t": "inst", "cls": r["cls"], "v": [[n, reset_noninit_deep(x, classes)] for n, x in r["v"]]}
 
 
 def depth_of(v):
@@ -1047,6 +1182,16 @@ def tags(case, obs):
         for e in c.get("edits") or []:
             if e["kind"] == "touch":
                 t.append(f"touch-depth:{len(e['path'])}")
+            if e["kind"] == "ok":
+                t.append(f"edit-depth:{len(e['path'])}")
+                if tree_get(c["obj"], e["path"]) == e["v"]:
+                    t.append("edit:no-op")
+                cur = c["obj"]
+                for k in e["path"][:-1]:
+                    t.append("via:" + field_of(c["classes"], cur["cls"], k)["kind"])
+                    cur = tree_get(cur, [k])
+        if reset_noninit_deep(c["obj"], c["classes"]) != c["obj"]:
+            t.append("has:noninit-off-default")
         if any(cl["frozen"] for cl in c["classes"]):
             t.append("has:frozen")
         ch = c["cd"] or c["kw"]
@@ -1060,6 +1205,16 @@ def tags(case, obs):
         t.append("valid:%s" % c["valid"])
         t.append(f"sels:{len(c['sels'])}")
         t.append(f"sel-depth:{max([len(s['path']) for s in c['sels']] or [0])}")
+        for s_ in c["sels"]:
+            t.append("selv:" + ("unknown" if s_.get("unknown") else s_["v"]["t"]))
+        for q in through_prefixes(c):
+            par = tree_get(c["obj"], q[:-1])
+            if par is not None and par.get("t") == "inst" and field_of(c["classes"], par["cls"], q[-1]):
+                t.append("pass-through:" + field_of(c["classes"], par["cls"], q[-1])["kind"])
+        if c["sel"] is not None:
+            t.append("sel-form:" + ("nested" if any(x.get("t") == "dict" for _, x in ditems(c["sel"])) else "flat"))
+            if _has_nested_key(c["sel"]):
+                t.append("sel-form:nested-with-key")
         keys = [k for k, _ in ditems(c["sel"])] if c["sel"] else []
         for i_, k in enumerate(keys):
             if any(k2.startswith(k + ".") for k2 in keys[:i_]):
@@ -1103,20 +1258,29 @@ def shrink(case):
 
 
 MANIFEST = {
-    "text": ("Proof, partial (one named gap, D19). Lean theorems over a branch-by-branch model of replace.py and "
-             "utils.unflatten*: a successful replace() keeps the class and the field skeleton, sets every addressed leaf to "
-             "the new value at any depth and in any mixture of forms (provided the path exists in obj: D19 exclusion) and "
-             "leaves every init leaf that no change addresses untouched (frame); an empty change set is the identity; "
-             "positional-dict and keyword forms coincide and a dotted edit equals its nested form at any depth; a single "
-             "edit equals dataclasses.replace applied level by level; changes to init=False fields and unknown names never "
-             "return normally, and errors below propagate; nested fields may be named obj / changes_dict; "
-             "replace_subgroups swaps exactly the selected member (one-level selection = dataclasses.replace of that "
-             "member), leaves every unselected member alone (frame) and a nested selection keeps every sibling of the "
-             "replaced member. The full addressed-leaf statement is refuted by the concrete D19 witness (dotted path through "
-             "None / a non-dataclass value stores a dict). The model is tied to the code by five correspondence ops and the "
-             "property's own statement (expected tree from the edit list, three input forms, empty nested change sets, "
-             "dataclasses.replace reference, input deep-copy, change-set dict not consumed and reusable) is evaluated on "
-             "every real observation."),
+    "text": ("Proof, partial (four named gaps: D19 for replace; pass-through under Optional/subgroups parents, consumed "
+             "selection dict and ignored unknown keys for replace_subgroups). PROVED over a branch-by-branch model of "
+             "replace.py and utils.unflatten*: a successful replace() keeps the class and the field skeleton; every addressed "
+             "leaf holds the new value at any depth, for change sets with several edits in any mixture of dotted / nested "
+             "forms (one form per top-level field; path must exist in obj: D19 exclusion, witness given); every init leaf "
+             "no change addresses is untouched (frame); an empty change set is the identity (init=False fields at their "
+             "default); a valid single edit DOES return, and returns r iff dataclasses.replace level by level gives r; the "
+             "dotted/nested choice per edit does not change the outcome for change sets with several edits (fixed entry "
+             "order) and positional-dict = keyword form; a change to an init=False or unknown field at ANY depth never "
+             "returns normally; nested fields may be named obj / changes_dict. replace_subgroups: a top-level selection by "
+             "key, by dataclass type or by instance succeeds and equals dataclasses.replace of that member; unselected "
+             "members are untouched (frame); under a plain (non-Optional, non-subgroups) parent a depth-2 selection succeeds, "
+             "is the level-by-level dataclasses.replace, the selected member is the alternative and every sibling is kept; "
+             "nested __key__ form = flat form and the order of a parent/child entry pair is irrelevant; three full statements "
+             "are refuted by witnesses for the open findings. SAMPLED only (correspondence + oracle, no theorem): obj "
+             "unchanged / result is a new object / the change-set and selection dicts are not consumed and can be reused; "
+             "key ORDER of multi-edit change sets and multi-edit reference; frozen classes; selections at depth 3, several "
+             "selections at once, partial / factory-function choices; the exception CLASS of rejected changes "
+             "(theorems say 'never returns'); init=False fields off their default. The 'unknown fields raise' clause is "
+             "claimed for replace() only; for replace_subgroups it is an open finding. Outside the quantifier and not "
+             "judged: mixed forms inside one subtree (replace(t, {'m': d, 'm.w': 2}) writes into the caller's d; "
+             "{'m.v': 2, 'm': M(5)} drops the first edit). The model is tied to the code by five correspondence ops; the "
+             "property's own statement is evaluated on every real observation."),
     "note": ("Trusted: Lean kernel + propext/Classical.choice/Quot.sound; stdlib dataclasses; the harness. Modelled not "
              "verified: replace.py:37-232, utils.py:907-951. Not modelled: aliasing between user-supplied change dicts, "
              "__post_init__, InitVar, the top-level keyword form with names obj / changes_dict (not expressible as a call; reported as unmodelled)."),
